@@ -206,6 +206,26 @@ func c20Total(s string) (v kit.Verdict) {
 			}
 		}
 	}
+	// the other exported helpers of string.go (Source feeds table / service names
+	// into FileNamingFormat; ContainsWhitespace / ContainsAny sit next to the
+	// conversions). The statement says nothing about their results: they are run
+	// for panics and determinism only (class aux:panics-only).
+	v.Classes = append(v.Classes, "aux:panics-only")
+	probe := []rune(s)
+	if len(probe) > 8 {
+		probe = append(probe[:4:4], probe[len(probe)-4:]...)
+	}
+	probe = append(probe, '_', ' ', 'é', -1, 0x110000)
+	aux := func() string {
+		return fmt.Sprintf("%q %v %v %v %v", From(s).Source(), ContainsWhitespace(s), ContainsAny(s), ContainsAny(s, probe...), From(s).IsEmptyOrSpace())
+	}
+	a1, p := c20Guard(aux)
+	if p != "" {
+		return v.Failf("Source/ContainsWhitespace/ContainsAny/IsEmptyOrSpace on %s panicked: %s", c20Short(s), p)
+	}
+	if a2, _ := c20Guard(aux); a2 != a1 {
+		return v.Failf("Source/ContainsWhitespace/ContainsAny/IsEmptyOrSpace on %s not deterministic: %s then %s", c20Short(s), c20Short(a1), c20Short(a2))
+	}
 	// chained, as the generator uses them
 	if _, p := c20Guard(func() string { return From(From(s).ToCamel()).ToSnake() }); p != "" {
 		return v.Failf("ToSnake(ToCamel(%s)) panicked: %s", c20Short(s), p)
